@@ -50,3 +50,12 @@ type codecError string
 func (e codecError) Error() string { return string(e) }
 
 const errUnmarshal = codecError("models.Codec: cannot unmarshal (type mismatch or foreign bytes)")
+
+func (Codec) MarshalInterface(i proto.Message) ([]byte, error) { return rt.MarshalOpaque(i), nil }
+
+func (Codec) UnmarshalInterface(bz []byte, ptr interface{}) error {
+	if !rt.UnmarshalInterfaceOpaque(bz, ptr) {
+		return errUnmarshal
+	}
+	return nil
+}
